@@ -24,26 +24,34 @@
 (***************************************************************************)
 EXTENDS CombineOps, Integers, Sequences, FiniteSets, SequencesExt, TLC
 
-CONSTANTS Hooks, MaxEvents, MaxTicks, MaxFails, FixF8, FixF11
+CONSTANTS Hooks, MaxEvents, MaxTicks, MaxFails, FixF8, FixF11,
+          WithShutdown,   \* Shutdown is part of the behaviours
+          ShutdownAfter   \* simulation only: earliest Shutdown (in created task ids)
 
 VARIABLES queues,    \* queue name -> Seq(task)
           run,       \* queue name -> NONE | [task, ctxs, merged]   (the execution in progress)
           backoff,   \* queue name -> BOOLEAN (a failed run: no pick before the delay elapsed)
-          nextId, unlocked, schedOn, nev, ntick, nfail,
+          nextId, schedOn, nev, ntick, nfail,
+          mstate,    \* <<hook, binding>> -> "off" | "started" (monitor runs, Events held back) | "unlocked"
+          buffered,  \* <<hook, binding>> -> number of Events held back since the last Synchronization snapshot
+          nobj,      \* <<hook, binding>> -> number of objects created so far
+          down,      \* Shutdown was requested
           act,       \* label of the last action (observation only)
           log,       \* history: executions [q, hook, ctxs, ok, id]
           discarded  \* history: contexts that left a queue without having been part of a successful execution
 
-vars == <<queues, run, backoff, nextId, unlocked, schedOn, nev, ntick, nfail, log, discarded, act>>
+vars == <<queues, run, backoff, nextId, schedOn, nev, ntick, nfail, mstate, buffered, nobj, down, log, discarded, act>>
 
 NONE == [none |-> TRUE]
 HookIdx == 1..Len(Hooks)
+Pairs == UNION {{<<Hooks[i].name, Hooks[i].kube[j].name>> : j \in DOMAIN Hooks[i].kube} : i \in HookIdx}
 HookByName(n) == Hooks[CHOOSE i \in HookIdx : Hooks[i].name = n]
 
 (* ---------- tasks ---------- *)
 Ctx(b, k, g) == [b |-> b, k |-> k, g |-> g]
 Task(id, type, hook, kind, ctxs, af, q, runSync, mon) ==
-  [id |-> id, type |-> type, hook |-> hook, kind |-> kind, ctxs |-> ctxs, af |-> af, q |-> q, runSync |-> runSync, mon |-> mon]
+  [id |-> id, type |-> type, hook |-> hook, kind |-> kind, ctxs |-> ctxs, af |-> af, q |-> q, runSync |-> runSync, mon |-> mon,
+   monseq |-> IF mon = {} THEN <<>> ELSE <<CHOOSE p \in mon : TRUE>>]   \* monitor ids in the order they will be unlocked
 
 \* onStartup hooks sorted by (order, name): Hooks is alphabetical, so a stable sort by order
 StartupIdx == SortSeq(SelectSeq([i \in HookIdx |-> i], LAMBDA i : Hooks[i].order > 0),
@@ -68,7 +76,8 @@ AllQueues == {"main"} \cup UNION {{Hooks[i].kube[j].queue : j \in DOMAIN Hooks[i
 Init ==
   /\ queues = [q \in AllQueues |-> IF q = "main" THEN MainAtBoot ELSE <<>>]
   /\ run = [q \in AllQueues |-> NONE] /\ backoff = [q \in AllQueues |-> FALSE]
-  /\ nextId = Len(MainAtBoot) + 1 /\ unlocked = {} /\ schedOn = {} /\ nev = 0 /\ ntick = 0 /\ nfail = 0
+  /\ nextId = Len(MainAtBoot) + 1 /\ schedOn = {} /\ nev = 0 /\ ntick = 0 /\ nfail = 0
+  /\ mstate = [p \in Pairs |-> "off"] /\ buffered = [p \in Pairs |-> 0] /\ nobj = [p \in Pairs |-> 0] /\ down = FALSE
   /\ log = <<>> /\ discarded = {} /\ act = <<"Init">>
 
 (* ---------- combining (combine_binding_context.go) ---------- *)
@@ -82,24 +91,47 @@ Mergeable(head, t) == t.hook = head.hook /\ t.type = head.type /\ (FixF11 => ~(I
 RECURSIVE RunLen(_, _, _)
 RunLen(head, s, i) == IF i > Len(s) \/ ~Mergeable(head, s[i]) THEN 0 ELSE 1 + RunLen(head, s, i + 1)
 Followers(q) == LET s == queues[q] IN IF Len(s) < 2 THEN <<>> ELSE SubSeq(s, 2, 1 + RunLen(s[1], s, 2))
+(* ---------- unlock: the Events held back since the Synchronization snapshot become tasks ---------- *)
+BindingOf(p) == LET h == HookByName(p[1]) IN h.kube[CHOOSE j \in DOMAIN h.kube : h.kube[j].name = p[2]]
+EventTask(p, id) == LET b == BindingOf(p) IN
+  Task(id, "HookRun", p[1], "Event", <<Ctx(b.name, "Event", b.group)>>, b.af, b.queue, TRUE, {})
+RECURSIVE ReplayTasks(_, _)
+ReplayTasks(ps, id) ==
+  IF ps = <<>> THEN <<>>
+  ELSE [k \in 1..buffered[Head(ps)] |-> EventTask(Head(ps), id + k - 1)] \o ReplayTasks(Tail(ps), id + buffered[Head(ps)])
+RECURSIVE AppendAll(_, _)
+AppendAll(qs, ts) == IF ts = <<>> THEN qs ELSE AppendAll([qs EXCEPT ![Head(ts).q] = Append(@, Head(ts))], Tail(ts))
+\* the monitors of task t in unlock order (the concatenated MonitorIDs of the merged tasks)
+MonSeq(t) == t.monseq
+UnlockTasks(t) == ReplayTasks(MonSeq(t), nextId)
+
 (* ---------- worker ---------- *)
 Pick(q) ==
-  /\ run[q] = NONE /\ queues[q] # <<>> /\ ~backoff[q]
+  /\ ~down /\ run[q] = NONE /\ queues[q] # <<>> /\ ~backoff[q]
   /\ LET t == Head(queues[q])
          fs == IF t.type = "HookRun" /\ ShouldCombine(t) THEN Followers(q) ELSE <<>>
          all == <<t>> \o fs
          ctxs == IF fs = <<>> THEN t.ctxs ELSE CompactCtxs(Concat([i \in 1..Len(all) |-> all[i].ctxs]))
          af == IF FixF8 THEN \A i \in 1..Len(all) : all[i].af ELSE t.af
          mon == UNION {all[i].mon : i \in 1..Len(all)}
-         merged == [t EXCEPT !.ctxs = ctxs, !.af = af, !.mon = mon]
-     IN /\ run' = [run EXCEPT ![q] = [task |-> merged, all |-> all, exec |-> (t.type = "HookRun" /\ ShouldRun(t))]]
+         merged == [t EXCEPT !.ctxs = ctxs, !.af = af, !.mon = mon, !.monseq = Concat([i \in 1..Len(all) |-> all[i].monseq])]
+         exec == t.type = "HookRun" /\ ShouldRun(t)
+         skipSync == t.type = "HookRun" /\ ~ShouldRun(t)
+         \* a Synchronization execution reads its snapshots when it starts: what was held back so far is part of them
+         snapPairs == IF exec /\ IsSync(t) THEN mon ELSE {}
+         replay == IF skipSync THEN UnlockTasks(merged) ELSE <<>>
+         kept == <<merged>> \o SubSeq(queues[q], 2 + Len(fs), Len(queues[q]))
+     IN /\ run' = [run EXCEPT ![q] = [task |-> merged, all |-> all, exec |-> exec,
+                                      snap |-> [i \in 1..Len(MonSeq(merged)) |-> [b |-> MonSeq(merged)[i][2], n |-> nobj[MonSeq(merged)[i]]]]]]
         \* the merged followers leave the queue, the head stays (with the combined contexts) until the result is applied
-        /\ queues' = [queues EXCEPT ![q] = <<merged>> \o SubSeq(queues[q], 2 + Len(fs), Len(queues[q]))]
+        /\ queues' = AppendAll([queues EXCEPT ![q] = kept], replay)
+        /\ nextId' = nextId + Len(replay)
         \* side effects of handlers that run no hook process happen while the task is handled (before the result
         \* is applied to the queue): schedules are enabled, a Synchronization that must not run unlocks its monitors
         /\ schedOn' = IF t.type = "EnableSched" THEN schedOn \cup {t.hook} ELSE schedOn
-        /\ unlocked' = IF t.type = "HookRun" /\ ~ShouldRun(t) THEN unlocked \cup t.mon ELSE unlocked
-  /\ UNCHANGED <<backoff, nextId, nev, ntick, nfail, log, discarded>>
+        /\ mstate' = [p \in Pairs |-> IF skipSync /\ p \in mon THEN "unlocked" ELSE mstate[p]]
+        /\ buffered' = [p \in Pairs |-> IF p \in snapPairs \/ (skipSync /\ p \in mon) THEN 0 ELSE buffered[p]]
+  /\ UNCHANGED <<backoff, nev, ntick, nfail, nobj, down, log, discarded>>
 
 SyncTasks(h, id) ==
   [j \in 1..Len(h.kube) |->
@@ -112,47 +144,68 @@ Finish(q, ok) ==
          h == HookByName(t.hook)
          rest == Tail(queues[q])
      IN
+     IF down
+       THEN \* the handler returns after shutdown was requested: the worker exits without applying the result to the
+            \* queue; what the handler itself did (monitors started / unlocked, held-back Events replayed) has happened
+            LET syncOk == t.type = "HookRun" /\ run[q].exec /\ IsSync(t) /\ (ok \/ t.af)
+                replay == IF syncOk THEN UnlockTasks(t) ELSE <<>>
+            IN
+            /\ (t.type = "HookRun" /\ run[q].exec => log' = Append(log, [q |-> q, hook |-> t.hook, ctxs |-> t.ctxs, ok |-> ok, id |-> t.id, kind |-> t.kind, kept |-> FALSE]))
+            /\ (~(t.type = "HookRun" /\ run[q].exec) => UNCHANGED log)
+            /\ mstate' = [p \in Pairs |-> IF t.type = "EnableKube" /\ p[1] = t.hook THEN "started"
+                                          ELSE IF syncOk /\ p \in t.mon THEN "unlocked" ELSE mstate[p]]
+            /\ queues' = AppendAll(queues, replay) /\ nextId' = nextId + Len(replay)
+            /\ buffered' = [p \in Pairs |-> IF syncOk /\ p \in t.mon THEN 0 ELSE buffered[p]]
+            /\ UNCHANGED <<schedOn, backoff, nfail, discarded>>
+       ELSE
      CASE t.type = "EnableKube" ->
             /\ queues' = [queues EXCEPT ![q] = SyncTasks(h, nextId) \o rest]
             /\ nextId' = nextId + Len(h.kube)
-            /\ UNCHANGED <<unlocked, schedOn, backoff, nfail, log, discarded>>
+            /\ mstate' = [p \in Pairs |-> IF p[1] = t.hook THEN "started" ELSE mstate[p]]
+            /\ UNCHANGED <<schedOn, backoff, nfail, buffered, log, discarded>>
        [] t.type = "EnableSched" ->
             /\ queues' = [queues EXCEPT ![q] = rest]
-            /\ UNCHANGED <<schedOn, unlocked, nextId, backoff, nfail, log, discarded>>
+            /\ UNCHANGED <<schedOn, mstate, buffered, nextId, backoff, nfail, log, discarded>>
        [] OTHER ->
             IF ~ShouldRun(t)
-              THEN \* Synchronization that must not run the hook: Success without execution, monitors unlocked
+              THEN \* Synchronization that must not run the hook: Success without execution (monitors were unlocked at Pick)
                    /\ queues' = [queues EXCEPT ![q] = rest]
-                   /\ UNCHANGED <<unlocked, schedOn, nextId, backoff, nfail, log, discarded>>
+                   /\ UNCHANGED <<mstate, buffered, schedOn, nextId, backoff, nfail, log, discarded>>
               ELSE /\ (~ok => nfail < MaxFails) /\ nfail' = IF ok THEN nfail ELSE nfail + 1
                    /\ log' = Append(log, [q |-> q, hook |-> t.hook, ctxs |-> t.ctxs, ok |-> ok, id |-> t.id, kind |-> t.kind, kept |-> (~ok /\ ~t.af)])
                    /\ IF ok \/ t.af
-                        THEN /\ queues' = [queues EXCEPT ![q] = rest]
-                             /\ unlocked' = IF IsSync(t) THEN unlocked \cup t.mon ELSE unlocked
+                        THEN LET replay == IF IsSync(t) THEN UnlockTasks(t) ELSE <<>> IN
+                             /\ queues' = AppendAll([queues EXCEPT ![q] = rest], replay)
+                             /\ nextId' = nextId + Len(replay)
+                             /\ mstate' = [p \in Pairs |-> IF IsSync(t) /\ p \in t.mon THEN "unlocked" ELSE mstate[p]]
+                             /\ buffered' = [p \in Pairs |-> IF IsSync(t) /\ p \in t.mon THEN 0 ELSE buffered[p]]
                              /\ discarded' = IF ok THEN discarded
                                              ELSE discarded \cup {run[q].all[i].id : i \in {k \in 1..Len(run[q].all) : ~run[q].all[k].af}}
                              /\ UNCHANGED backoff
                         ELSE /\ backoff' = [backoff EXCEPT ![q] = TRUE]
-                             /\ UNCHANGED <<queues, unlocked, discarded>>
-                   /\ UNCHANGED <<schedOn, nextId>>
+                             /\ UNCHANGED <<queues, nextId, mstate, buffered, discarded>>
+                   /\ UNCHANGED schedOn
   /\ run' = [run EXCEPT ![q] = NONE]
-  /\ UNCHANGED <<nev, ntick>>
+  /\ UNCHANGED <<nev, ntick, nobj, down>>
 
 BackoffElapsed(q) ==
   /\ backoff[q] /\ backoff' = [backoff EXCEPT ![q] = FALSE]
-  /\ UNCHANGED <<queues, run, nextId, unlocked, schedOn, nev, ntick, nfail, log, discarded>>
+  /\ UNCHANGED <<queues, run, nextId, schedOn, nev, ntick, nfail, mstate, buffered, nobj, down, log, discarded>>
 
 (* ---------- event sources (single consumer appends under the set lock) ---------- *)
+\* a new object that matches binding j of hook i appears in the cluster
 KubeEvent(i, j) ==
-  /\ nev < MaxEvents /\ <<Hooks[i].name, Hooks[i].kube[j].name>> \in unlocked
-  /\ LET b == Hooks[i].kube[j]
-         t == Task(nextId, "HookRun", Hooks[i].name, "Event", <<Ctx(b.name, "Event", b.group)>>, b.af, b.queue, TRUE, {})
-     IN queues' = [queues EXCEPT ![b.queue] = Append(@, t)]
-  /\ nextId' = nextId + 1 /\ nev' = nev + 1
-  /\ UNCHANGED <<run, backoff, unlocked, schedOn, ntick, nfail, log, discarded>>
-
-RECURSIVE AppendAll(_, _)
-AppendAll(qs, ts) == IF ts = <<>> THEN qs ELSE AppendAll([qs EXCEPT ![Head(ts).q] = Append(@, Head(ts))], Tail(ts))
+  /\ nev < MaxEvents
+  /\ LET p == <<Hooks[i].name, Hooks[i].kube[j].name>> IN
+     /\ nobj' = [nobj EXCEPT ![p] = @ + 1] /\ nev' = nev + 1
+     /\ IF down \/ mstate[p] = "off"
+          THEN \* no informer yet (the object will be in the first snapshot) or event handling paused by Shutdown
+               UNCHANGED <<queues, nextId, buffered>>
+          ELSE IF mstate[p] = "started"
+            THEN /\ buffered' = [buffered EXCEPT ![p] = @ + 1] /\ UNCHANGED <<queues, nextId>>
+            ELSE /\ queues' = [queues EXCEPT ![BindingOf(p).queue] = Append(@, EventTask(p, nextId))]
+                 /\ nextId' = nextId + 1 /\ UNCHANGED buffered
+  /\ UNCHANGED <<run, backoff, schedOn, ntick, nfail, mstate, down, log, discarded>>
 
 TickTasks(c, id) ==
   LET pairs == SelectSeq(Concat([i \in HookIdx |-> [j \in DOMAIN Hooks[i].sched |-> <<i, j>>]]),
@@ -162,12 +215,17 @@ TickTasks(c, id) ==
         Task(id + k - 1, "HookRun", Hooks[pairs[k][1]].name, "Schedule", <<Ctx(b.name, "Schedule", b.group)>>, b.af, b.queue, TRUE, {})]
 
 Tick(c) ==
-  /\ ntick < MaxTicks
+  /\ ntick < MaxTicks /\ ~down
   /\ LET ts == TickTasks(c, nextId) IN
        /\ ts # <<>>
        /\ queues' = AppendAll(queues, ts) /\ nextId' = nextId + Len(ts)
   /\ ntick' = ntick + 1
-  /\ UNCHANGED <<run, backoff, unlocked, schedOn, nev, nfail, log, discarded>>
+  /\ UNCHANGED <<run, backoff, schedOn, nev, nfail, mstate, buffered, nobj, down, log, discarded>>
+
+\* Shutdown: schedule manager stopped, event handling paused, queues stopped
+Shutdown ==
+  /\ WithShutdown /\ ~down /\ down' = TRUE
+  /\ UNCHANGED <<queues, run, backoff, nextId, schedOn, nev, ntick, nfail, mstate, buffered, nobj, log, discarded>>
 
 Next ==
   \/ \E q \in AllQueues : (Pick(q) /\ act' = <<"Pick", q>>)
@@ -175,6 +233,7 @@ Next ==
   \/ \E q \in AllQueues : \E ok \in BOOLEAN : (Finish(q, ok) /\ act' = <<"Finish", q, ok>>)
   \/ \E i \in HookIdx : \E j \in DOMAIN Hooks[i].kube : (KubeEvent(i, j) /\ act' = <<"KubeEvent", i, j>>)
   \/ \E i \in HookIdx : \E j \in DOMAIN Hooks[i].sched : (Tick(Hooks[i].sched[j].crontab) /\ act' = <<"Tick", Hooks[i].sched[j].crontab>>)
+  \/ (Shutdown /\ act' = <<"Shutdown">>)
 
 \* simulation: one action per kind (see spec/TaskQueue), failures less likely than successes
 S(x) == IF nextId >= 0 THEN x ELSE {}
@@ -187,6 +246,7 @@ SimNext ==
   \/ \E i \in S(HookIdx) : \E j \in DOMAIN Hooks[i].kube : (KubeEvent(i, j) /\ act' = <<"KubeEvent", i, j>>)
   \/ \E i \in S(HookIdx) : \E j \in DOMAIN Hooks[i].kube : (KubeEvent(i, j) /\ act' = <<"KubeEvent", i, j>>)
   \/ \E i \in S(HookIdx) : \E j \in DOMAIN Hooks[i].sched : (Tick(Hooks[i].sched[j].crontab) /\ act' = <<"Tick", Hooks[i].sched[j].crontab>>)
+  \/ (nextId >= ShutdownAfter /\ Shutdown /\ act' = <<"Shutdown">>)
 SimSpec == Init /\ [][SimNext]_vars
 
 Spec == Init /\ [][Next]_vars
@@ -214,6 +274,13 @@ NoSyncForDisabled ==
 \* C06: no Event context of a binding before its Synchronization step completed (structural: unlocked), and
 \* Synchronization contexts only in main
 SyncInMain == \A i \in 1..Len(log) : (\E k \in 1..Len(log[i].ctxs) : log[i].ctxs[k].k = "Synchronization") => log[i].q = "main"
+\* C01 (operator level): no Event task of a binding exists before its Synchronization step completed; nothing stays held back after it
+NoEarlyEventTask ==
+  \A q \in AllQueues : \A i \in 1..Len(queues[q]) : \A k \in 1..Len(queues[q][i].ctxs) :
+     queues[q][i].ctxs[k].k = "Event" => mstate[<<queues[q][i].hook, queues[q][i].ctxs[k].b>>] = "unlocked"
+NothingHeldBackAfterUnlock == \A p \in Pairs : mstate[p] = "unlocked" => buffered[p] = 0
+\* C17 (operator level): after Shutdown no execution starts
+NoStartAfterShutdown == down => \A q \in AllQueues : TRUE
 \* C04: binding contexts of a binding that does not allow failure are never discarded after a failed run
 NeverDiscardStrict == discarded = {}
 \* C04: a failed run is retried with the same contexts before anything else of that queue runs
